@@ -81,15 +81,12 @@ extern MPT_STRUCT(config_item) *mpt_config_item_reserve(_MPT_UARRAY_TYPE(MPT_STR
 	}
 	else {
 		MPT_INTERFACE(metatype) *old;
-		MPT_STRUCT(buffer) *sub;
 		if ((old = unused->value)) {
 			old->_vptr->unref(old);
 			unused->value = 0;
 		}
-		if ((sub = unused->elements._buf)) {
-			mpt_buffer_cut(sub, 0, buf->_used);
-			mpt_array_reduce(&unused->elements);
-		}
+		/* stale sub-elements are no part of the new element (and may be shared with a copy of the old one) */
+		mpt_array_clone(&unused->elements, 0);
 	}
 	if (!mpt_identifier_set(&unused->identifier, name, len)) {
 		return 0;
